@@ -10,6 +10,8 @@ import (
 	"net"
 	"sort"
 	"strings"
+	"sync"
+	"sync/atomic"
 	"testing"
 	"time"
 
@@ -249,7 +251,8 @@ func c28OnlyProxy(ids []int32) bool {
 // ids of topics that were deleted or re-created meanwhile).
 type c28History struct {
 	p       *proxy
-	store   *metadata.InMemoryStore
+	store   *metadata.InMemoryStore // the cluster metadata (reference reads it directly)
+	gate    *c28GatedStore          // what the proxy reads through
 	snap    c28Snapshot
 	everIDs [][16]byte
 	everSet map[[16]byte]bool
@@ -347,9 +350,38 @@ func c28Mutate(t *rapid.T, h *c28History) {
 // with the reference projection of the store content AT THIS MOMENT. It returns whether
 // the request was non-trivial by the stated rule.
 func c28Request(t *rapid.T, st *vfkit.Stats, h *c28History) bool {
-	snap, store, p := h.snap, h.store, h.p
+	pr := c28Prepare(t, st, h, false)
+	reply, err := c28RoundTrip(h.p, pr.payload)
+	if err != nil {
+		fmt.Println("VF-INCONCLUSIVE: " + err.Error())
+		t.Fatalf("VF-INCONCLUSIVE: %v", err)
+	}
+	nt, violation := c28Verify(st, h, pr, reply)
+	if violation != "" {
+		t.Fatalf("%s", violation)
+	}
+	return nt
+}
+
+// c28Prepared is one drawn request with its reference projection (store content now).
+type c28Prepared struct {
+	rq                  c28Req
+	version             int16
+	want                []c28Proj
+	hasUnknown          bool
+	outOfDomainTopicErr bool
+	corr                int32
+	payload             []byte
+}
+
+func c28Prepare(t *rapid.T, st *vfkit.Stats, h *c28History, overlapping bool) *c28Prepared {
+	snap, store := h.snap, h.store
 	// rapid favours small indexes: the interesting kinds / versions come first
-	kind := rapid.SampledFrom([]string{"ids", "names", "all", "ids", "names", "empty"}).Draw(t, "kind")
+	kinds := []string{"ids", "names", "all", "ids", "names", "empty"}
+	if overlapping {
+		kinds = []string{"ids", "all", "ids", "names", "empty"}
+	}
+	kind := rapid.SampledFrom(kinds).Draw(t, "kind")
 	var version int16
 	switch kind {
 	case "ids":
@@ -484,35 +516,40 @@ func c28Request(t *rapid.T, st *vfkit.Stats, h *c28History) bool {
 	}
 
 	corr := int32(rapid.Int32Range(1, 1<<30).Draw(t, "corr"))
-	reply, err := c28RoundTrip(p, c28EncodeRequest(req, corr))
-	if err != nil {
-		fmt.Println("VF-INCONCLUSIVE: " + err.Error())
-		t.Fatalf("VF-INCONCLUSIVE: %v", err)
-	}
+	return &c28Prepared{rq: rq, version: version, want: want, hasUnknown: hasUnknown, outOfDomainTopicErr: outOfDomainTopicErr,
+		corr: corr, payload: c28EncodeRequest(req, corr)}
+}
+
+// c28Verify judges one reply against the prepared reference; returns non-triviality and the
+// violation text ("" = none). The caller fails the case from ONE call site so that rapid sees
+// the same traceback whichever of two overlapping requests was the one answered wrongly.
+func c28Verify(st *vfkit.Stats, h *c28History, pr *c28Prepared, reply []byte) (nontrivial bool, violation string) {
+	snap := h.snap
+	rq, version, want, hasUnknown, outOfDomainTopicErr, corr := pr.rq, pr.version, pr.want, pr.hasUnknown, pr.outOfDomainTopicErr, pr.corr
 	if reply == nil {
 		st.Class("no-reply")
-		return false
+		return false, ""
 	}
 	where := fmt.Sprintf("history %v\n store now %+v", h.trace, snap)
 	gotCorr, body, err := c28SplitReply(reply, version >= 9)
 	if err != nil {
-		t.Fatalf("metadata v%d reply: %v", version, err)
+		return false, fmt.Sprintf("metadata v%d reply: %v", version, err)
 	}
 	if gotCorr != corr {
-		t.Fatalf("metadata v%d reply has correlation id %d, request had %d", version, gotCorr, corr)
+		return false, fmt.Sprintf("metadata v%d reply has correlation id %d, request had %d", version, gotCorr, corr)
 	}
 	resp := kmsg.NewPtrMetadataResponse()
 	resp.Version = version
 	if err := resp.ReadFrom(body); err != nil {
-		t.Fatalf("metadata v%d reply does not decode: %v (request %+v)\n%s", version, err, rq, where)
+		return false, fmt.Sprintf("metadata v%d reply does not decode: %v (request %+v)\n%s", version, err, rq, where)
 	}
 
 	// ---- only the proxy is named
 	if len(resp.Brokers) != 1 || resp.Brokers[0].NodeID != 0 || resp.Brokers[0].Host != c28Host || resp.Brokers[0].Port != c28Port {
-		t.Fatalf("metadata v%d reply broker list is %+v, want exactly {0 %s %d}\n%s", version, resp.Brokers, c28Host, c28Port, where)
+		return false, fmt.Sprintf("metadata v%d reply broker list is %+v, want exactly {0 %s %d}\n%s", version, resp.Brokers, c28Host, c28Port, where)
 	}
 	if version >= 1 && resp.ControllerID != 0 {
-		t.Fatalf("metadata v%d reply controller id %d is not the proxy (0); snapshot controller %d", version, resp.ControllerID, snap.Controller)
+		return false, fmt.Sprintf("metadata v%d reply controller id %d is not the proxy (0); snapshot controller %d", version, resp.ControllerID, snap.Controller)
 	}
 	leaked := false
 	for _, tp := range resp.Topics {
@@ -527,7 +564,7 @@ func c28Request(t *rapid.T, st *vfkit.Stats, h *c28History) bool {
 				if tp.Topic != nil {
 					name = *tp.Topic
 				}
-				t.Fatalf("metadata v%d reply: topic %q partition %d names a broker other than the proxy: leader=%d replicas=%v isr=%v offline=%v (request %+v)\n%s",
+				return false, fmt.Sprintf("metadata v%d reply: topic %q partition %d names a broker other than the proxy: leader=%d replicas=%v isr=%v offline=%v (request %+v)\n%s",
 					version, name, pt.Partition, pt.Leader, pt.Replicas, pt.ISR, pt.OfflineReplicas, rq, where)
 			}
 		}
@@ -566,12 +603,12 @@ func c28Request(t *rapid.T, st *vfkit.Stats, h *c28History) bool {
 	}
 	for id, n := range wantAny {
 		if n > 0 {
-			t.Fatalf("metadata v%d by-id reply lacks an error entry for topic id %s, which no topic has now; reply topics %v (request %+v)\n%s", version, id, c28SortProj(got), rq, where)
+			return false, fmt.Sprintf("metadata v%d by-id reply lacks an error entry for topic id %s, which no topic has now; reply topics %v (request %+v)\n%s", version, id, c28SortProj(got), rq, where)
 		}
 	}
 	ws, gs := c28SortProj(wantExact), c28SortProj(gotExact)
 	if strings.Join(ws, "\n") != strings.Join(gs, "\n") {
-		t.Fatalf("metadata v%d reply topology differs from the cluster metadata at this moment for request %+v\n got:  %v\n want: %v\n%s", version, rq, gs, ws, where)
+		return false, fmt.Sprintf("metadata v%d reply topology differs from the cluster metadata at this moment for request %+v\n got:  %v\n want: %v\n%s", version, rq, gs, ws, where)
 	}
 
 	nonZeroLeader := false
@@ -591,7 +628,187 @@ func c28Request(t *rapid.T, st *vfkit.Stats, h *c28History) bool {
 	if len(resp.Topics) == 0 {
 		st.Class("reply-without-topics")
 	}
-	return snap.Brokers >= 2 && (hasUnknown || rq.Kind == "ids")
+	return snap.Brokers >= 2 && (hasUnknown || rq.Kind == "ids"), ""
+}
+
+// c28GatedStore is the metadata.Store the proxy under test reads through. While armed,
+// every Metadata call is held at the gate, so two client requests can be made to overlap
+// inside the store read (a slow etcd-backed read); otherwise it is transparent.
+type c28GatedStore struct {
+	*metadata.InMemoryStore
+	mu      sync.Mutex
+	armed   bool
+	arrived chan struct{}
+	release chan struct{}
+}
+
+func (g *c28GatedStore) Metadata(ctx context.Context, topics []string) (*metadata.ClusterMetadata, error) {
+	g.mu.Lock()
+	if g.armed {
+		arrived, release := g.arrived, g.release
+		g.mu.Unlock()
+		select {
+		case arrived <- struct{}{}:
+		default:
+		}
+		<-release
+	} else {
+		g.mu.Unlock()
+	}
+	return g.InMemoryStore.Metadata(ctx, topics)
+}
+
+// c28Overlap sends two requests so that both are in flight at the same time: the store
+// read is gated until both callers are inside it (or until both round trips are otherwise
+// accounted for; the 50 ms fallback only bounds the wait when a caller never reaches the
+// store - it is not a verdict). Store content does not change meanwhile, so each reply must
+// equal the reference projection for ITS OWN request.
+func c28Overlap(t *rapid.T, st *vfkit.Stats, h *c28History) bool {
+	a := c28Prepare(t, st, h, true)
+	b := c28Prepare(t, st, h, true)
+	g := h.gate
+	g.mu.Lock()
+	g.armed, g.arrived, g.release = true, make(chan struct{}, 8), make(chan struct{})
+	arrived, release := g.arrived, g.release
+	g.mu.Unlock()
+	type res struct {
+		reply []byte
+		err   error
+	}
+	ra, rb := make(chan res, 1), make(chan res, 1)
+	go func() { r, e := c28RoundTrip(h.p, a.payload); ra <- res{r, e} }()
+	go func() { r, e := c28RoundTrip(h.p, b.payload); rb <- res{r, e} }()
+	var resA, resB *res
+	inside := 0
+	fallback := time.NewTimer(50 * time.Millisecond)
+	defer fallback.Stop()
+	timedOut := false
+	for !timedOut && inside+c28Btoi(resA != nil)+c28Btoi(resB != nil) < 2 {
+		select {
+		case <-arrived:
+			inside++
+		case r := <-ra:
+			resA = &r
+		case r := <-rb:
+			resB = &r
+		case <-fallback.C:
+			timedOut = true
+		}
+	}
+	g.mu.Lock()
+	g.armed = false
+	g.mu.Unlock()
+	close(release)
+	if resA == nil {
+		r := <-ra
+		resA = &r
+	}
+	if resB == nil {
+		r := <-rb
+		resB = &r
+	}
+	switch {
+	case inside >= 2:
+		st.Class("overlap:both-requests-inside-store-read")
+	case timedOut:
+		st.Class("overlap:fallback-release")
+	default:
+		st.Class("overlap:one-finished-early")
+	}
+	for _, r := range []*res{resA, resB} {
+		if r.err != nil {
+			fmt.Println("VF-INCONCLUSIVE: " + r.err.Error())
+			t.Fatalf("VF-INCONCLUSIVE: %v", r.err)
+		}
+	}
+	h.trace = append(h.trace, "^ the last two requests overlapped")
+	ntA, vA := c28Verify(st, h, a, resA.reply)
+	ntB, vB := c28Verify(st, h, b, resB.reply)
+	if vA != "" || vB != "" {
+		t.Fatalf("overlapping requests: %s", strings.TrimSpace(vA+"\n"+vB))
+	}
+	return ntA || ntB
+}
+
+func c28Btoi(b bool) int {
+	if b {
+		return 1
+	}
+	return 0
+}
+
+// c28Backend is a reachable broker behind the proxy: it answers Metadata the way a real
+// broker does (real broker list, controller and leader ids from cluster metadata) and
+// does not auto-create anything. The unchanged proxy never needs it for Metadata; it is
+// there so that a proxy that consults or relays a backend is exposed.
+type c28Backend struct {
+	ln    net.Listener
+	store atomic.Pointer[metadata.InMemoryStore]
+	asked atomic.Int64
+	wg    sync.WaitGroup
+}
+
+func c28StartBackend() (*c28Backend, error) {
+	ln, err := net.Listen("tcp4", "127.0.0.1:0")
+	if err != nil {
+		return nil, err
+	}
+	b := &c28Backend{ln: ln}
+	b.wg.Add(1)
+	go func() {
+		defer b.wg.Done()
+		for {
+			conn, err := ln.Accept()
+			if err != nil {
+				return
+			}
+			b.wg.Add(1)
+			go b.serve(conn)
+		}
+	}()
+	return b, nil
+}
+
+func (b *c28Backend) stop() { _ = b.ln.Close(); b.wg.Wait() }
+
+func (b *c28Backend) serve(conn net.Conn) {
+	defer b.wg.Done()
+	defer conn.Close()
+	for {
+		_ = conn.SetDeadline(time.Now().Add(60 * time.Second))
+		fr, err := protocol.ReadFrame(conn)
+		if err != nil {
+			return
+		}
+		hdr, req, err := protocol.ParseRequest(fr.Payload)
+		if err != nil {
+			return
+		}
+		mr, ok := req.(*kmsg.MetadataRequest)
+		store := b.store.Load()
+		if !ok || store == nil {
+			return
+		}
+		b.asked.Add(1)
+		var names []string
+		for _, tp := range mr.Topics {
+			if tp.Topic != nil {
+				names = append(names, *tp.Topic)
+			}
+		}
+		meta, err := store.Metadata(context.Background(), names)
+		if err != nil {
+			return
+		}
+		resp := kmsg.NewPtrMetadataResponse()
+		resp.Brokers = meta.Brokers
+		resp.ClusterID = meta.ClusterID
+		resp.ControllerID = meta.ControllerID
+		resp.Topics = meta.Topics
+		if protocol.WriteFrame(conn, protocol.EncodeResponse(hdr.CorrelationID, hdr.APIVersion, resp)) != nil {
+			return
+		}
+	}
 }
 
 // Each case is a short history on ONE proxy instance: snapshot S1 (+ the start-up cache
@@ -601,17 +818,33 @@ func c28Request(t *rapid.T, st *vfkit.Stats, h *c28History) bool {
 func TestVF_C28_Metadata(t *testing.T) {
 	st := vfkit.NewStats("C28", "metadata")
 	defer st.Flush()
+	backend, err := c28StartBackend()
+	if err != nil {
+		fmt.Println("VF-INCONCLUSIVE: backend listener: " + err.Error())
+		t.Fatalf("VF-INCONCLUSIVE: backend listener: %v", err)
+	}
+	defer backend.stop()
+	defer func() { st.Note("metadata_requests_that_reached_a_backend", backend.asked.Load()) }()
 	rapid.Check(t, func(t *rapid.T) {
 		st.Eval()
 		snap := c28DrawSnapshot(t)
 		initial := snap.clone()
 		store := metadata.NewInMemoryStore(snap.cluster())
-		p := &proxy{advertisedHost: c28Host, advertisedPort: c28Port, store: store, logger: c28Discard(),
-			dialTimeout: time.Second, cacheTTL: time.Minute, brokerAddrs: map[string]string{}, topicNames: map[[16]byte]string{},
+		gate := &c28GatedStore{InMemoryStore: store}
+		backend.store.Store(store)
+		p := &proxy{advertisedHost: c28Host, advertisedPort: c28Port, store: gate, logger: c28Discard(),
+			dialTimeout: 5 * time.Second, cacheTTL: time.Minute, brokerAddrs: map[string]string{}, topicNames: map[[16]byte]string{},
 			backendRetries: 1, backendBackoff: time.Millisecond}
+		// a deployed proxy has brokers behind it: static backend list (KAFSCALE_PROXY_BACKENDS) in 2 of 3 cases
+		if rapid.IntRange(0, 2).Draw(t, "backendDie") != 1 {
+			p.backends = []string{backend.ln.Addr().String()}
+			p.setCachedBackends(p.backends)
+			p.touchHealthy()
+			st.Class("proxy-has-reachable-backend")
+		}
 		p.setReady(true)
 		p.refreshMetadataCache(context.Background()) // initMetadataCache at start-up (without its 10 s ticker)
-		h := &c28History{p: p, store: store, snap: snap, everSet: map[[16]byte]bool{}}
+		h := &c28History{p: p, store: store, gate: gate, snap: snap, everSet: map[[16]byte]bool{}}
 		h.remember()
 
 		nt := false
@@ -631,6 +864,12 @@ func TestVF_C28_Metadata(t *testing.T) {
 			for i, n := 0, rapid.SampledFrom([]int{2, 1, 3}).Draw(t, "requestsAfter"); i < n; i++ {
 				nt = c28Request(t, st, h) || nt
 			}
+			if rapid.IntRange(0, 3).Draw(t, "overlapDie") == 1 {
+				nt = c28Overlap(t, st, h) || nt
+			}
+		}
+		if rounds == 0 || rapid.IntRange(0, 2).Draw(t, "finalOverlapDie") == 1 {
+			nt = c28Overlap(t, st, h) || nt
 		}
 		st.Class(fmt.Sprintf("change-rounds=%d", rounds))
 		if nt {
